@@ -26,6 +26,9 @@ def main(tier, seed, replay=None):
             run.tie("n2 build", out_[-1000:])
         else:
             run.coverage["black_box_killed_commands"] = taskleg.killed_command_leg(run, n2, random.Random(seed))
+            taskleg.symlink_leg(run, n2)
+            taskleg.selfwrite_leg(run, n2)
+            run.coverage["black_box_symlinks_and_byproducts"] = "inputs reached through symbolic links; a command rewriting its own reported dependency"
 
     return world_check(PROP, THEOREMS, tier, seed, [monitor_null_build, monitor_killed_commands], clean_oracle=True, replay=replay, scen_gen=gen,
                        note="phony aliases used as dirtying inputs (finding F8) are excluded by the property and not generated")
